@@ -65,7 +65,7 @@ CHECKS = {
    ref="DESIGN.md section 3, C12"),
  "C13": dict(
    technique="property-based testing (proptest) with repeated process launches; oracle = byte equality across runs",
-   text="Generated files built to produce several diagnostics at once (a definition that mentions 2-6 later non-value definitions, several unbound / re-bound names, several type errors, several stray symbols, mixtures), accepted programs, syntax near-misses, invalid UTF-8 and the empty file are run 6 (quick) / 20 (thorough) times per sub-command in separate processes; (status, stdout, stderr) must be byte-identical. In-process companion: 10 parse() calls on the same tokens must return identical diagnostics. Cannot prove determinism; the escape probability per file with k permutable diagnostics is (1/k!)^(launches-1).",
+   text="Generated files built to produce several diagnostics at once (a definition that mentions 2-6 later non-value definitions, several unbound / re-bound names, several type errors, several stray symbols, mixtures), accepted programs, syntax near-misses, invalid UTF-8 and the empty file are run 6 (quick) / 12 (thorough) times per sub-command in separate processes; (status, stdout, stderr) must be byte-identical. In-process companion: 10 parse() calls on the same tokens must return identical diagnostics. Cannot prove determinism; the escape probability per file with k permutable diagnostics is (1/k!)^(launches-1).",
    note="Trusts process isolation (fresh hash seeds per launch). Fixed path, cwd and NO_COLOR.",
    ref="DESIGN.md section 3, C13"),
  "C14": dict(
